@@ -28,6 +28,7 @@ from exabgp.bgp.message.update.attribute.tunnel_encap.sr_policy.binding_sid impo
 from exabgp.bgp.message.update.attribute.tunnel_encap.sr_policy.srv6_binding_sid import SRv6BindingSIDSubTLV
 from exabgp.bgp.message.update.attribute.tunnel_encap.sr_policy.segment_list import SegmentListSubTLV
 from exabgp.util.types import Buffer
+from exabgp.util.jsonmembers import join_members
 
 _SR_POLICY_TUNNEL_TYPE = 15
 
@@ -70,7 +71,7 @@ class SRPolicyTunnel(TunnelTypeTLV):
                 parts.append(tlv.json())
         if segment_lists:
             parts.append('"segment-lists": [' + ', '.join(segment_lists) + ']')
-        return '"sr-policy": {' + ', '.join(parts) + '}'
+        return '"sr-policy": {' + join_members(parts) + '}'
 
     def __str__(self) -> str:
         return 'sr-policy {' + ' '.join(str(t) for t in self.subtlvs) + '}'
